@@ -8,7 +8,8 @@ PROOF_MODULES = ["GrpcProofs.Properties.C12"]
 THEOREMS = ["GrpcProofs.C12." + t for t in (
     "handle_implies_legal", "handle_implies_all_content_types_valid_counterexample",
     "handler_runs_only_for_registered_method", "active_le_maxStreams", "excess_gets_refused_stream",
-    "illegal_id_never_handled", "maxStreamID_monotone", "framer_reject_never_handled")]
+    "illegal_id_never_handled", "maxStreamID_monotone", "framer_reject_never_handled",
+    "accepted_id_recorded", "used_id_never_handled_later")]
 DESIGN_REF = "DESIGN.md section 8, C12"
 TECHNIQUE = ("Lean 4 theorems about a port of operateHeaders (checks in source order) composed with a model of the x/net/http2 "
              "header validation it sits on, plus an inductive invariant over all frame sequences; tie T2: real grpc.Server over "
@@ -24,8 +25,10 @@ LEVEL_TEXT = ("Machine-checked proof that, for every server state and every head
 LEVEL_NOTE = ("Trusted: Lean kernel; the hand model lean/GrpcModel/Model/ServerAdmission.lean, which includes an ENVIRONMENT model of "
               "x/net/http2's readMetaFrame/checkPseudos and of encoding/base64 acceptance (both exercised by the same differential "
               "runs, base64 and ContentSubtype additionally exhaustively on short strings). Readings: 'illegal stream id' = even, or "
-              "not above the highest id operateHeaders has accepted (a HEADERS the framer rejected, or a truncated one, does not "
-              "advance that id: HTTP/2 would call the re-use illegal, grpc-go does not notice); 'invalid content-type' is checked in "
+              "not above the highest id that was legal when it arrived, whatever the server then did with that request (415, 400, "
+              "REFUSED_STREAM, ...): the monitor computes it from the frames the client sent, not from the server's maxStreamID field "
+              "(a HEADERS the framer rejected, or a truncated one, does not advance it: HTTP/2 would call the re-use illegal, grpc-go "
+              "does not notice); 'invalid content-type' is checked in "
               "the strict sense (every content-type field valid) by the monitor and the unchanged server violates it when a valid "
               "content-type is accompanied by an invalid one (known finding F20); the theorem carries the lenient clause and the "
               "counterexample. 'never panics' is observed, not proved: a panic or crash of the real server on any generated input "
@@ -40,7 +43,7 @@ RULE = ("cases = start (MaxConcurrentStreams 0..5, optional small MaxHeaderListS
         "0-3 mutations (method, content-type incl. duplicates, grpc-timeout incl. zero/malformed/duplicates, -bin metadata valid/invalid "
         "base64, :authority/host multiplicities, connection, path variants, pseudo-header order/unknown/response pseudo, upper-case "
         "or illegal names, control bytes in values, filler fields up to truncation, END_STREAM) with ids next-odd / even / repeated / "
-        "lower / 0 / jump, interleaved with handler completion, client RST_STREAM, DATA(END_STREAM) incl. after half-close, virtual "
+        "lower / 0 / jump, re-use of the id of a request that was just turned down (every rejection reason x same/lower id, directed + random), interleaved with handler completion, client RST_STREAM, DATA(END_STREAM) incl. after half-close, virtual "
         "sleep past grpc-timeouts, arbitrary frames and raw bytes; binhdr: every string of length <= 4 over a 7-symbol alphabet + "
         "random; a case is non-trivial if a handler ran in it; distinct = distinct op list")
 
@@ -227,6 +230,10 @@ def random_case(rng, fuzz):
                 ok = ok and o
             es = rng.random() < 0.3
             ops.append(hdr_op(i, es, fields))
+            if nm > 0 and i % 2 == 1 and i >= next_id and rng.random() < 0.25:
+                # the id of a (probably) turned-down request, or a lower unused one, re-used by a well-formed request
+                j = rng.choice([i, i, max(1, i - 2)])
+                ops.append(hdr_op(j, rng.random() < 0.3, base_fields(j)))
             if i % 2 == 1 and i >= next_id:
                 if ok and len(running) < limit:
                     running.append(i)
@@ -275,6 +282,23 @@ def directed():
            hdr_op(3, False, b(3) + [("f%d" % j, "v") for j in range(4)])]
     # a rejected / truncated HEADERS does not advance the highest accepted id
     yield ["start 2", hdr_op(5, False, b(5) + [("Upper", "x")]), hdr_op(3, False, b(3)), hdr_op(5, False, b(5)), hdr_op(5, False, b(5))]
+    # an id is used up by ANY request that passes the id check, whatever happens to it afterwards: every way of
+    # turning a request down, followed by a well-formed request with the same or a lower (still unaccepted) id
+    rejects = [
+        set_field(b(5), "content-type", "text/html"), drop_field(b(5), "content-type"),
+        b(5) + [("grpc-timeout", "1x")], b(5) + [("grpc-timeout", "0n")], b(5) + [("a-bin", "!!!")],
+        set_field(b(5), ":method", "GET"), b(5) + [("connection", "close")], b(5) + [("host", "h1"), ("host", "h2")],
+        b(5, "/s/zz"), b(5, "nopath"),
+    ]
+    for rej in rejects:
+        for second in (3, 5):
+            for es in (False, True):
+                yield ["start 2", hdr_op(1, False, b(1)), hdr_op(5, es, rej), hdr_op(second, False, b(second)), "finish %d" % second,
+                       hdr_op(7, False, b(7))]
+    # … and the REFUSED_STREAM variant (limit reached, id 9 refused, then 7 / 9 after a slot is free)
+    for second in (7, 9):
+        yield ["start 1", hdr_op(1, False, b(1)), hdr_op(9, False, b(9)), "finish 1", hdr_op(second, False, b(second)), "finish %d" % second]
+        yield ["start 2", hdr_op(1, False, b(1)), hdr_op(3, True, b(3)), hdr_op(9, False, b(9)), "rst 3 8", hdr_op(second, False, b(second))]
     for ct in CTS_OK + CTS_BAD:
         yield ["start 1", hdr_op(1, True, set_field(b(1), "content-type", ct)), "finish 1"]
     for t in GOOD_TIMEOUTS + ZERO_TIMEOUTS + BAD_TIMEOUTS:
